@@ -590,3 +590,53 @@ def elementwise(arg):
                 elem = f"{m.group(2)}[_{m.group(1)}]"
                 return norm(x.args[0]).replace(elem, "@"), m.group(2)
     return None
+
+
+class NotConcrete(Exception):
+    pass
+
+
+def concrete_expr(e, env, consts=None):
+    """Integer value of FHDL expression node `e` under a concrete valuation env {source text of a signal: int} (module constants
+    in `consts`): literals, comparisons, & | ^ + - << >> * //, ~ and Mux on the valuation; raises NotConcrete on anything else."""
+    consts = consts or {}
+    t = norm(e)
+    if t in env:
+        return env[t]
+    if isinstance(e, ast.Constant) and isinstance(e.value, (int, bool)):
+        return int(e.value)
+    if isinstance(e, ast.Name) and e.id in consts and isinstance(consts[e.id], int):
+        return consts[e.id]
+    if isinstance(e, ast.Compare) and len(e.ops) == 1:
+        a, b = concrete_expr(e.left, env, consts), concrete_expr(e.comparators[0], env, consts)
+        r = {ast.Eq: a == b, ast.NotEq: a != b, ast.Lt: a < b, ast.LtE: a <= b, ast.Gt: a > b, ast.GtE: a >= b}.get(type(e.ops[0]))
+        if r is None:
+            raise NotConcrete(t)
+        return int(r)
+    if isinstance(e, ast.BinOp):
+        a, b = concrete_expr(e.left, env, consts), concrete_expr(e.right, env, consts)
+        ops = {ast.BitAnd: lambda: a & b, ast.BitOr: lambda: a | b, ast.BitXor: lambda: a ^ b, ast.Add: lambda: a + b, ast.Sub: lambda: a - b,
+               ast.LShift: lambda: a << b, ast.RShift: lambda: a >> b, ast.Mult: lambda: a * b, ast.FloorDiv: lambda: a // b}
+        if type(e.op) not in ops:
+            raise NotConcrete(t)
+        return ops[type(e.op)]()
+    if isinstance(e, ast.UnaryOp) and isinstance(e.op, ast.Invert):
+        a = concrete_expr(e.operand, env, consts)
+        if a not in (0, 1):
+            raise NotConcrete(t)        # width unknown
+        return 1 - a
+    if isinstance(e, ast.Call) and norm(e.func) == "Mux" and len(e.args) == 3 and not e.keywords:
+        return concrete_expr(e.args[1] if concrete_expr(e.args[0], env, consts) else e.args[2], env, consts)
+    if isinstance(e, ast.Call) and norm(e.func) in ("int", "Constant") and e.args:
+        return concrete_expr(e.args[0], env, consts)
+    raise NotConcrete(t)
+
+
+def concrete_value(fx, assigns, env, consts=None, default=0):
+    """Value a combinational signal takes under valuation `env`: its assignments in program order, the last one whose guards hold
+    wins (Migen), `default` (the reset value) when none does."""
+    val = default
+    for a in sorted(assigns, key=lambda a: fx.assigns.index(a)):
+        if all(bool(concrete_expr(g, env, consts)) == pol for g, pol in a.guards):
+            val = concrete_expr(a.value, env, consts)
+    return val
